@@ -401,7 +401,8 @@ let run_cmd toks =
         | "blockdev-small" -> Blk (nl [ 7; 7; 7; 7; 7 ]) | _ -> Blk (nl [ 7; 7; 7; 7; 7; 7; 7; 7; 7; 7; 7; 7; 7; 7; 7 ]) in
       let st =
         if cmd = "clone" then
-          clone_cmd_model { e_flags = { c_force_create = (flag = "force"); c_seed_output = (flag = "seed-output"); c_verify_output = false };
+          clone_cmd_model { e_flags = { c_force_create = (flag = "force" || flag = "verify-force"); c_seed_output = (flag = "seed-output");
+                                        c_verify_output = (flag = "verify" || flag = "verify-force") };
                             e_archive = (if ak = "invalid" then AInvalid else AValid);
                             e_pin = (match ak with "mismatch" | "prefix-pin" | "empty-pin" -> PinMismatch | "match-pin" -> PinMatch | _ -> NoPin);
                             e_out = out; e_src = src10 }
